@@ -43,10 +43,10 @@ class CompletionController:
     def rank(self, k):
         return (self.ranks[(k - 1) % len(self.ranks)] if self.ranks else 0, k)
 
-    def wait_turn(self, k):
+    def wait_turn(self, k, late=False):
         import time
         with self.cv:
-            self.waiting[k] = self.rank(k)
+            self.waiting[k] = (10 ** 9, k) if late else self.rank(k)
             self.last_arrival = time.time()
             self.cv.notify_all()
             while True:
@@ -135,8 +135,9 @@ class _Downloader:
 
 class CountingBlob:
     """Stand-in for an azure BlobClient: download_blob(offset, length).readall(), blob_name."""
-    def __init__(self, path, controller=None, latency=0.0):
+    def __init__(self, path, controller=None, latency=0.0, fault_last=False):
         self.blob_name = path
+        self.fault_last = fault_last    # a request that is going to fail completes after every other one
         self._path = path
         # a remote read takes time: with a non-zero latency concurrent requests really overlap (nothing is
         # decided by the clock; it only widens the window in which unsynchronised workers can interleave)
@@ -160,7 +161,9 @@ class CountingBlob:
 
         def fetch():
             if self.controller is not None:
-                self.controller.wait_turn(k)
+                with self.lock:
+                    late = self.fault_last and bool(self.plan) and (k in self.plan or (offset, length) in self.plan)
+                self.controller.wait_turn(k, late=late)
             with open(self._path, "rb") as f:
                 f.seek(offset)
                 data = f.read(length)
@@ -213,8 +216,9 @@ def need(T, op):
     if m in ("gen_trace_header", "gen_trace_header_all", "header", "get_tracefield_values", "attributes"):
         arrays = [(s.footer_start + k * s.stride, s.footer_start + k * s.stride + s.array_len) for k in range(s.n_arrays)]
         if m in ("get_tracefield_values", "attributes"):
-            k = T.owners.index(a[0])
-            return "footer", [arrays[k]]
+            from .ops import field_owner
+            own = field_owner(T, a[0])
+            return "footer", ([arrays[T.owners.index(own)]] if own is not None else [])
         if m in ("gen_trace_header", "header") and T.structured and not T.is_2d:
             # a regular file: 4 bytes per stored array, at the trace's slot
             g = a[0]
